@@ -316,8 +316,28 @@ def corpus():
         out.append({'model': m, 'ovr': ovr, 'adds': adds, 'route': 'cli'})
     return out
 
+def search_corpus():
+    """fixed histories for the violation search only (twelfth round): an override whose new value uses a [Variables] entry
+    that only a later addition creates -- by hand both edits are in the file before anything is resolved"""
+    out = []
+    for k, route in ((20, 'api'), (21, 'api'), (22, 'api')):      # api route: --list-items prints resolved values, which the cli oracle compares as raw text
+        g = random.Random(1400 + k); m = sc.gen_model(g, kind='pair')
+        if any(s_[0] == 'Variables' for s_, _ in m['sections']): continue
+        pairs = [(s_, e) for s_, es in m['sections'] for e in es if s_[0] == 'Pair']
+        if not pairs: continue
+        s_, e = pairs[k % len(pairs)]
+        if k == 22:      # the pair removed, then added again with the placeholder
+            ovr = [['remove', s_, e['key'], 0]]
+            adds = [['add', ('Variables',), ('opt', 'a_new'), 0, '1200.0'], ['add', s_, e['key'], 0, 'as.buck ${a_new} 0.3 10.0']]
+        else:
+            ovr = [['override', s_, e['key'], 0, 'as.buck ${a_new} 0.3 10.0']]
+            adds = [['add', ('Variables',), ('opt', 'a_new'), 0, '1200.0']]
+        out.append({'model': m, 'ovr': ovr, 'adds': adds, 'route': route})
+    return out
+
 def search_cases(rng, n):
     for c in corpus(): yield c
+    for c in search_corpus(): yield c
     for k in range(n // 6):
         c = gen_case(rng)
         if k % 3: c['route'] = 'api'          # the command-line route costs a subprocess per case: one case in three
